@@ -16,6 +16,8 @@
 import Hw.Attr.DistancesLemmas
 import Hw.Attr.GroupingSets
 import Hw.Attr.GroupingClosure
+import Hw.Attr.GroupingWalk
+import Hw.Attr.GroupingValue
 namespace Hw.Props.C13
 open Hw.Dist
 
@@ -315,6 +317,18 @@ theorem C13_transform_merge_no_port (p : Pub) (hf : firstSw p.objs = none) : trM
 section grouping
 open Hw.Grouping
 
+/-- `hwloc__check_grouping_matrix` (accuracy 0) accepts exactly the matrices whose cells above the diagonal equal their mirror cell and
+exceed the diagonal cell of their row (the diagonal of the last row is never looked at) -/
+theorem C13_group_check_matrix_iff (M : Mat) (n : Nat) :
+    checkMatrix M n = true ↔ ∀ i j, i < j → j < n → M i j = M j i ∧ M i i < M i j :=
+  checkMatrix_iff M n
+
+/-- nothing is grouped for at most two objects, for a kind without LATENCY / HOPS (bandwidth: the code has no max-distance variant),
+or when the user's matrix fails the validity check -/
+theorem C13_group_refused (kind f n : Nat) (M : Mat) (b : Bool)
+    (h : n ≤ 2 ∨ kind &&& KIND_GROUPABLE = 0 ∨ (b = true ∧ checkMatrix M n = false)) : rounds kind f n M b = [] :=
+  rounds_refused kind f n M b h
+
 /-- the fuel of the `while (firstfound != -1)` rescan loop suffices: with `n + 1` passes the loop of the model always ends by itself
 (every pass that sets `newfirstfound` groups at least one more of the `n` objects) -/
 theorem C13_group_closure_fuel (M : Mat) (md gid n ff : Nat) (ids : Nat → Nat) (size : Nat) (hg : gid ≠ 0) :
@@ -348,6 +362,14 @@ theorem C13_group_ids_closure (M : Mat) (n : Nat) (hnb : (findGroups M n).1 ≠ 
     (∀ a, a < n → ((findGroups M n).2 a = 0 ↔ ∀ b, b < n → b ≠ a → M a b ≠ minDist M n)) :=
   findGroups_clique M n hnb hsym htr
 
+/-- the matrix between the groups (`GROUP_VALUE`) is the 2^64-wrapped double sum of the cells between the two groups divided by the
+product of their sizes, and it is symmetric whenever the matrix is: the recursion may skip the symmetry check (`needcheck = 0`) -/
+theorem C13_group_matrix_symmetric (M : Mat) (n : Nat) (ids : Nat → Nat) (hs : ∀ i j, i < n → j < n → M i j = M j i) (a b : Nat) :
+    groupValue M n ids a b = groupValue M n ids b a ∧
+    groupValue M n ids a b = (sumL (fun i => sumL (fun j => M i j) (members ids n (b+1))) (members ids n (a+1))) % Hw.Grouping.W64
+        / ((members ids n (a+1)).length * (members ids n (b+1)).length) :=
+  ⟨groupValue_symm M n ids hs a b, groupValue_eq M n ids a b⟩
+
 /-- a round has at most `n / 2` groups, so the recursion on the matrix between the groups terminates: any fuel `≥ n` gives the same
 list of rounds -/
 theorem C13_group_rounds_fuel (kind f n : Nat) (M : Mat) (b : Bool) (hf : n ≤ f) : rounds kind f n M b = rounds kind n n M b :=
@@ -376,11 +398,31 @@ theorem C13_group_round_insert_laminar (t : Hw.Topo.Ins.T) (hL : Hw.Topo.Ins.Lam
            Hw.Topo.Ins.cntT g t' ≤ Hw.Topo.Ins.cntT g t + ((roundObjs sets r subkind base).map (·.gp)).count g :=
   round_insert_laminar t hL sets r subkind base hs
 
+/-- **the whole grouping of one commit is consistent with C01**: the model of everything `hwloc__groups_by_distances` does to the
+tree (every Group of every round through `hwloc_topology_insert_group_object` incl. merges, refusals, the cut after a failed round and
+the `add_children_sets` / reorder fix-up — `Hw.Grouping.walk`, the function the engine's prediction runs) maps a laminar tree to a
+laminar tree with the same root set, for every list of rounds, every object sets and every environment -/
+theorem C13_group_commit_laminar (e : GEnv) (rs : List Round) (sets : Nat → Nat) (sk base : Nat) (t : Hw.Topo.Ins.T)
+    (h : Hw.Topo.Ins.Lam t) :
+    Hw.Topo.Ins.Lam (walk e rs sets sk base t).1 ∧ (walk e rs sets sk base t).1.o.key = t.o.key ∧
+    sk ≤ (walk e rs sets sk base t).2 ∧ (walk e rs sets sk base t).2 ≤ sk + rs.length :=
+  ⟨(walk_lam e rs sets sk base t h).1, (walk_lam e rs sets sk base t h).2, walk_subkind_le e rs sets sk base t⟩
+
 /-! non-vacuity: 4 objects in two pairs (cells 1 inside a pair, 2 across) -/
 def pairs4 : Mat := fun i j => if i = j then 0 else if i / 2 = j / 2 then 1 else 2
 
 example : (findGroups pairs4 4).1 = 2 ∧ (List.range 4).map (findGroups pairs4 4).2 = [1, 1, 2, 2] := by decide +kernel
 example : checkMatrix pairs4 4 = true ∧ rounds 5 4 4 pairs4 true = [⟨4, 2, [1, 1, 2, 2]⟩] := by decide +kernel
+/-- an asymmetric cell: refused -/
+example : checkMatrix (fun i j => if i = j then 0 else if (i, j) = (0, 1) then 2 else 1) 3 = false ∧
+    rounds 5 3 3 (fun i j => if i = j then 0 else if (i, j) = (0, 1) then 2 else 1) true = [] := by decide +kernel
+/-- a bandwidth kind (8 | FROM_OS): refused whatever the matrix -/
+example : rounds 9 4 4 pairs4 true = [] := by decide +kernel
+
+/-- cells near 2^64 wrap in the sum between two groups: (2^64-1 + 2^64-1 + 3 + 3) mod 2^64 / 4 = 1 -/
+example : groupValue (fun i j => if i = j then 0 else if i / 2 = j / 2 then 1 else if (i + j) % 2 = 1 then U64MAX else 3) 4
+    (fun i => i / 2 + 1) 0 1 = 1 := by decide +kernel
+
 /-- `pairs4` meets the hypotheses of `C13_group_ids_closure` -/
 example : ((findGroups pairs4 4).2 0 = (findGroups pairs4 4).2 1 ∧ (findGroups pairs4 4).2 0 ≠ 0) ↔ pairs4 0 1 = minDist pairs4 4 := by
   have hs : ∀ a, a < 4 → ∀ b, b < 4 → pairs4 a b = minDist pairs4 4 → pairs4 b a = minDist pairs4 4 := by decide +kernel
@@ -402,6 +444,14 @@ example : (match Hw.Topo.Ins.insAll (.node { gp := 0, type := Hw.Topo.tMACHINE, 
       (roundObjs (fun i => 1 <<< i) ⟨4, 2, [1, 1, 2, 2]⟩ 0 100) with | some t' => Hw.Topo.Ins.rows 0 t' | none => [])
     = [(0, 0, [], []), (100, 0, [900, 0, 0], []), (1, 100, [], []), (2, 100, [], []),
        (101, 0, [900, 0, 0], []), (3, 101, [], []), (4, 101, [], [])] := by decide +kernel
+
+/-- the same through the walk of a whole commit: 8 PUs, pairs inside quads, two nested rounds (4 Groups of subkind 0, 2 of subkind 1) -/
+example : (let M : Mat := fun i j => if i = j then 0 else if i / 2 = j / 2 then 1 else if i / 4 = j / 4 then 3 else 7
+    let r := walk ⟨0, 0xff, 1, []⟩ (rounds 5 8 8 M true) (fun i => 1 <<< i) 0 100
+      (.node { gp := 0, type := Hw.Topo.tMACHINE, key := 0xff }
+        ((List.range 8).map (fun i => .node { gp := i + 1, type := Hw.Topo.tPU, key := 1 <<< i } [])))
+    (((Hw.Topo.Ins.objsT r.1).filter (fun o => o.type == Hw.Topo.tGROUP)).map (fun o => (o.gp, o.key, o.subkind)), r.2))
+    = ([(104, 0xf, 1), (100, 0x3, 0), (101, 0xc, 0), (105, 0xf0, 1), (102, 0x30, 0), (103, 0xc0, 0)], 2) := by decide +kernel
 
 /-- The closure is NOT always transitive (candidate finding, outside the property): `newfirstfound` is the FIRST object found in a
 pass, not the smallest one, so a member found later with a smaller index is never rescanned.  On the path 0–2–1–3 (all four cells
